@@ -55,12 +55,14 @@ Inductive stage_code :=
 | SEmit (freq : N) (f : fcode) (fl : failcode) (try : bool)
 | SThrottle (ops : nat) (interval : N)
 | SSeq (xs : list Z)
+| SStdErr
 | SFork (st : stage_code) (n : nat) (gate : bool).
 
 (* channels a stage closes *)
 Definition closes_of (st : stage_code) : list nat :=
   match st with
   | SMap _ _ _ | SFMap _ _ _ | SPartition _ | SUnfold _ _ _ _ | SEmit _ _ _ _ => [0%nat; 1%nat]
+  | SStdErr => []
   | _ => [0%nat]
   end.
 
@@ -86,6 +88,7 @@ Definition cfg_of (st : stage_code) (icaps ocaps : list nat) : cfg :=
   | SEmit freq f fl try => gen_stage (plan_emit freq (fres f fl) try) 0 [0%nat; 1%nat] ocaps
   | SThrottle ops d => throttle_stage ops d icaps ocaps
   | SSeq xs => gen_stage (plan_seq xs) 0 [0%nat] ocaps
+  | SStdErr => seq_stage plan_sink no_eof always 0 [] icaps ocaps
   | SFork st' n gate => fork_stage n gate (seq_plan st') (closes_of st') icaps ocaps
   | _ => seq_stage (seq_plan st) no_eof always 0 (closes_of st) icaps ocaps
   end.
